@@ -143,6 +143,12 @@ impl Outcome {
 /// Random search with shrinking: `cases` byte strings of length < `max_len`, split over 16
 /// workers with disjoint fixed seeds derived from `seed`.
 pub fn search(sub: &str, seed: u64, cases: u64, max_len: usize, f: &CaseFn) -> Outcome {
+    search_len(sub, seed, cases, 0, max_len, f)
+}
+
+/// like `search`, with a lower bound on the length of the choice sequence (generators that
+/// consume thousands of choices would otherwise mostly run on an exhausted, all-zero tail)
+pub fn search_len(sub: &str, seed: u64, cases: u64, min_len: usize, max_len: usize, f: &CaseFn) -> Outcome {
     let stop = AtomicBool::new(false);
     let done = AtomicBool::new(false);
     let results: Mutex<Vec<(Collector, Option<(Failure, Vec<u8>)>)>> = Mutex::new(vec![]);
@@ -164,7 +170,7 @@ pub fn search(sub: &str, seed: u64, cases: u64, max_len: usize, f: &CaseFn) -> O
                 let mut runner = TestRunner::new(cfg);
                 let col = std::cell::RefCell::new(Collector::default());
                 let last_fail: std::cell::RefCell<Option<Failure>> = std::cell::RefCell::new(None);
-                let strat = pvec(any::<u8>(), 0..max_len);
+                let strat = pvec(any::<u8>(), min_len..max_len);
                 let r = runner.run(&strat, |bytes| {
                     if stop.load(Ordering::Relaxed) && !col.borrow().frozen {
                         return Ok(());
